@@ -110,6 +110,8 @@ type c03Pod struct {
 	obj      *corev1.Pod
 	inCache  bool
 	assigned bool
+	inc      int           // incarnation: the UID of the current object is uid-<id>-<inc> (uid-<id> for the first)
+	stale    []*corev1.Pod // objects of earlier incarnations (index = incarnation)
 }
 
 // c03Names overrides the generated group names (default-quota harness: 1 = default, 2 = system quota).
@@ -146,7 +148,7 @@ func c03MakeQuota(q *c03Quota, rv int) *v1alpha1.ElasticQuota {
 func c03MakePod(r *vRand, p *c03Pod) *corev1.Pod {
 	pod := &corev1.Pod{
 		ObjectMeta: metav1.ObjectMeta{
-			Namespace: "ns", Name: fmt.Sprintf("p%d", p.id), UID: types.UID(fmt.Sprintf("uid-%d", p.id)),
+			Namespace: "ns", Name: fmt.Sprintf("p%d", p.id), UID: types.UID(fmt.Sprintf("uid-%d-%d", p.id, p.inc)),
 			Labels: map[string]string{extension.LabelQuotaName: c03QName(p.quota)},
 		},
 	}
@@ -270,6 +272,8 @@ type c03World struct {
 	// set by a webhook-illegal meta change (wild / exhaustive streams): the manager's books are then off by design of
 	// the code, the used = assigned clauses and the consistency assumptions are not claimed any more
 	acctBroken bool
+	// between a bind update and the migration tick a pod is (by design) held by two groups: no used = assigned claim
+	transient bool
 }
 
 // below: q and every planned/registered group under it.
@@ -733,10 +737,10 @@ func (w *c03World) dump() {
 		// what admission relies on: the reported used of a group is the sum of the (masked) requests of the pods
 		// currently assigned in its subtree - whatever happened before (every stream: roll-backs, deletions,
 		// re-parenting, tree resets, lowered max, unadmitted reserves)
-		if uo := w.usedO(id, false); u.v != uo && !w.acctBroken {
+		if uo := w.usedO(id, false); u.v != uo && !w.acctBroken && !w.transient {
 			w.h.Fail("C03:used-ne-assigned", "group %d reports used %v, the pods assigned in its subtree request %v", id, u.v, uo)
 		}
-		if no := w.usedO(id, true); n.v != no && !w.acctBroken {
+		if no := w.usedO(id, true); n.v != no && !w.acctBroken && !w.transient {
 			w.h.Fail("C03:used-ne-assigned:np", "group %d reports nonPreemptibleUsed %v, the non-preemptible pods assigned in its subtree request %v", id, n.v, no)
 		}
 		if !w.closedLoop || (w.special[id] && w.cfgRT) {
@@ -1832,6 +1836,7 @@ func c03LateCase(t *testing.T, h *vHarness, suit *pluginTestSuit, idx int, dmax 
 		planned = append(planned, id)
 	}
 	label := map[int]int{}
+	pending, step0 := 0, 0
 	waiting := func(p *c03Pod) bool { // filed under the default quota although its group exists: needs a tick
 		return p.inCache && p.quota == 1 && label[p.id] != 1 && w.quotas[label[p.id]].added
 	}
@@ -1861,7 +1866,89 @@ func c03LateCase(t *testing.T, h *vHarness, suit *pluginTestSuit, idx int, dmax 
 	}
 	register := func(id int) {
 		w.setQuota(w.quotas[id])
+		// between the creation and the tick: the bind update of a waiting pod (files it under the new group although
+		// the default quota still holds it) or its deletion (the delete handler must also clear the default quota)
+		bound := map[int]bool{}
+		var ids []int
+		for pid, p := range w.pods {
+			if waiting(p) {
+				ids = append(ids, pid)
+			}
+		}
+		sort.Ints(ids)
+		for _, pid := range ids {
+			p := w.pods[pid]
+			switch r.Intn(4) {
+			case 0:
+				old := p.obj
+				neu := old.DeepCopy()
+				neu.Spec.NodeName = "n1"
+				neu.ResourceVersion = fmt.Sprint(1000 + step0)
+				step0++
+				h.Op("podbind %d", p.id)
+				gp.OnPodUpdate(old, neu)
+				p.obj = neu
+				p.quota, p.assigned = label[p.id], true
+				bound[p.id] = true
+				h.Tag("late:bind-update-before-tick")
+				w.transient = true
+				w.dump()
+			case 1:
+				h.Op("del %d", p.id)
+				gp.OnPodDelete(p.obj)
+				p.inCache, p.assigned = false, false
+				if p.id == pending {
+					pending = 0
+				}
+				h.Tag("late:delete-before-tick")
+				w.dump()
+			}
+		}
+		w.transient = false
 		tick()
+		if len(bound) > 0 && !w.acctBroken {
+			sums := gp.groupQuotaManager.GetQuotaSummaries(false)
+			if sg := sums[c03QName(id)]; sg != nil {
+				if u := c03FromList(sg.Used); u.v != w.usedO(id, false) {
+					h.Fail("C03:update-before-migration-double-count", "group %d: a pod update arrived between the group's creation and the migration tick; "+
+						"after the tick the group reports used %v, the pods assigned in it request %v", id, u.v, w.usedO(id, false))
+				}
+			}
+		}
+	}
+	recreate := func(p *c03Pod) { // a deleted pod comes back under the same name: new object, new UID, new request
+		for len(p.stale) <= p.inc {
+			p.stale = append(p.stale, nil)
+		}
+		p.stale[p.inc] = p.obj
+		p.inc++
+		p.np, p.req = r.Chance(1, 4), c03GenReq(r)
+		p.obj = c03MakePod(r, p)
+		p.obj.Labels[extension.LabelQuotaName] = c03QName(label[p.id])
+		h.Op("podredef %d %d %s", p.id, vB(p.np), p.req.toks())
+		h.Tag("late:pod-recreated-under-the-same-name")
+		w.dump()
+	}
+	staleUnreserve := func(p *c03Pod) { // the roll-back of an EARLIER incarnation arrives late
+		inc := r.Intn(len(p.stale))
+		old := p.stale[inc]
+		if old == nil {
+			return
+		}
+		qi := gp.groupQuotaManager.GetQuotaInfoByName(c03QName(p.quota))
+		before := gp.groupQuotaManager.GetQuotaSummaries(false)[c03QName(p.quota)]
+		wasAssigned := qi != nil && qi.CheckPodIsAssigned(p.obj)
+		h.Op("unresobj %d %d", p.id, inc)
+		gp.Unreserve(context.TODO(), framework.NewCycleState(), old, "n1")
+		h.Tag("late:stale-unreserve")
+		after := gp.groupQuotaManager.GetQuotaSummaries(false)[c03QName(p.quota)]
+		if before != nil && after != nil && qi != nil {
+			if c03FromList(before.Used) != c03FromList(after.Used) || wasAssigned != qi.CheckPodIsAssigned(p.obj) {
+				h.Fail("C03:stale-unreserve-same-name", "Unreserve with the object of incarnation %d of pod %d (current incarnation %d): used %v -> %v, assigned %v -> %v",
+					inc, p.id, p.inc, c03FromList(before.Used).v, c03FromList(after.Used).v, wasAssigned, qi.CheckPodIsAssigned(p.obj))
+			}
+		}
+		w.dump()
 	}
 	if r.Bool() {
 		register(planned[0])
@@ -1879,7 +1966,7 @@ func c03LateCase(t *testing.T, h *vHarness, suit *pluginTestSuit, idx int, dmax 
 		sort.Ints(ids)
 		return w.pods[ids[r.Intn(len(ids))]]
 	}
-	nextPod, pending := 1, 0
+	nextPod := 1
 	for step := 0; step < 40; step++ {
 		k := r.Intn(100)
 		switch {
@@ -1939,6 +2026,9 @@ func c03LateCase(t *testing.T, h *vHarness, suit *pluginTestSuit, idx int, dmax 
 			}
 		case k < 75:
 			if p := pick(func(p *c03Pod) bool { return !p.inCache }); p != nil {
+				if r.Bool() || p.obj.Spec.NodeName != "" { // (an add of an object with a node name is a fail-over add: outside the model)
+					recreate(p)
+				}
 				p.quota = home(p.id)
 				h.Op("podadd %d", p.id)
 				gp.OnPodAdd(p.obj)
@@ -1955,7 +2045,11 @@ func c03LateCase(t *testing.T, h *vHarness, suit *pluginTestSuit, idx int, dmax 
 				}
 			}
 		default:
-			tick() // nothing to move
+			if p := pick(func(p *c03Pod) bool { return p.inCache && len(p.stale) > 0 && !waiting(p) }); p != nil && r.Chance(2, 3) {
+				staleUnreserve(p)
+			} else {
+				tick() // nothing to move
+			}
 		}
 	}
 }
